@@ -1,6 +1,7 @@
 import SqlProofs.AccessorSpec
 import SqlModel.KwNorm
 import SqlProofs.LeadingKeyword
+import SqlProofs.CteShape.Core
 /-!
 # C18 — Statement.get_type() names the statement's leading DML/DDL keyword
 
@@ -41,5 +42,14 @@ example : LeadHyp kwNorm [⟨T.CommentMultiline, txt "/* c */"⟩, ⟨T.Whitespa
     ⟨T.Name, txt "a"⟩] = true ∧
     LeadHyp kwNorm [⟨T.DML, txt "select"⟩, ⟨T.Punctuation, txt "::"⟩, ⟨T.Name, txt "int"⟩] = false := by
   constructor <;> decide +kernel
+
+/-- **CTE clause**: `get_type()` is invariant under admissible re-spelling of the children … -/
+theorem get_type_respell : type_of% @Sql.Acc.getType_respell := @Sql.Acc.getType_respell
+/-- … so one WITH statement whose check evaluates to true (lexer → grouping → `get_type()` = the DML keyword after the CTE definitions) gives
+the same answer for every admissible spelling of names, literals, comment texts, keyword case and whitespace values, at every sufficient fuel.
+The table of 196 WITH statements (1–3 definitions, column lists, RECURSIVE, comments between definitions and before the DML keyword,
+AS MATERIALIZED, seven DML verbs; AS NOT MATERIALIZED pinned as decided negatives = known finding KF-C18-3) is decided by the kernel in
+`SqlPropsSlow/C18Table.lean` (thorough tier) and evaluated by the compiled driver in the quick tier (`ctecheck`). -/
+theorem cte_get_type_of_checked_statement : type_of% @Sql.Acc.cte_get_type_of_check := @Sql.Acc.cte_get_type_of_check
 
 end Sql.C18
